@@ -136,3 +136,15 @@ contract(
              "spec.env.forward_open_path(t.sent[7]) == spec.env.forward_open_path(t.sent[2])",
              "spec.encap.try_parse_frame(t.sent[8])[3][1] == cid2 and spec.encap.try_parse_frame(t.sent[8])[1] == session2"],
     props=["C10", "C04", "C11", "C15"], max_paths=20000)
+
+# a redundant open() on a connected driver changes nothing the target knows the connection by: the Forward Close that ends it
+# names the same connection serial / vendor / originator serial as the Forward Open that made it
+contract(
+    id="lifecycle.open_again.connected", func=D + ".close", call="d.close()",
+    params={"session": P.int(1, 0xFFFFFFFF), "cid": P.bytes(len=4)},
+    setup=["replies = [spec.env.register_reply(session), spec.env.forward_open_reply(True, 0, cid), spec.msgrouter.connected_reply(0x0e, 0, b'ok'), "
+           "spec.env.forward_close_reply(0)]", "fail_at = None"] + SETUP +
+          ["opened = d.open()", "first = d.generic_message(service=0x0e, class_code=1, instance=1, attribute=1, connected=True)", "again = d.open()"],
+    ensures=["again == True", "spec.env.frame_kinds(t.sent) == ['register', 'fo-large', 'connected', 'fclose', 'unregister']",
+             "spec.env.connection_triad(t.sent[3]) == spec.env.connection_triad(t.sent[1])", "spec.env.connection_triad(t.sent[1]) is not None", CLOSED],
+    props=["C10"], max_paths=20000)
